@@ -102,6 +102,9 @@ var Entries = []EntryT{
 	{Name: "ADD nh2 @NOPE", NI: "NOPE", Op: spb.AFTOperation_ADD, E: ribx.NHEntry(2, "2.2.2.2"), Bad: true},
 	{Name: "ADD nhg2{2}", NI: D, Op: spb.AFTOperation_ADD, E: ribx.NHGEntry(2, 0, [2]uint64{2, 1})},
 	{Name: "ADD nh2", NI: D, Op: spb.AFTOperation_ADD, E: ribx.NHEntry(2, "2.2.2.2")},
+	// an entry of the other network instance that points at a group of the default one (held until that group exists)
+	{Name: "ADD v4@V->1@D", NI: V, Op: spb.AFTOperation_ADD, E: ribx.V4Entry("10.0.0.0/8", 1, D, nil)},
+	{Name: "ADD v6@V->1@D", NI: V, Op: spb.AFTOperation_ADD, E: ribx.V6Entry("2001:db8::/32", 1, D, nil)},
 }
 
 func entryIdx(name string) int {
@@ -547,6 +550,12 @@ func (in *inst) stateChecks() []mc.Fail {
 				if len(s.got[id]) == 0 && !held[id] && !s.exempt[id] {
 					out = append(out, mc.Fail{Sig: "C06/operation-never-answered", What: fmt.Sprintf("session %d (primary) operation %d (%s) has no result and is not held", i, id, ribx.Text(op))})
 				}
+			}
+		}
+		// ... and "legitimately held" means that a reference of the operation is still unresolved
+		for _, p := range in.srv.VerifRIB().VerifPending() {
+			if _, _, payload := ribx.Describe(p.Op); p.Op.GetOp() == spb.AFTOperation_ADD && payload != nil && real.Resolvable(p.NI, payload) {
+				out = append(out, mc.Fail{Sig: "C06/operation-unanswered-although-resolvable", What: fmt.Sprintf("operation %d (%s) is held without a result although every entry it references is installed", p.ID, ribx.Text(p.Op))})
 			}
 		}
 	}
